@@ -8,7 +8,7 @@ Case lines (shared with harness/c06/c06.c and harness/mudlib/c06/main.c):
   assign d s | free s | aset s i t | aget d s i | mset s k t | mdel s k
   push s | pushr s | pop | popto d                                  (unit mode only)
   newobj o | setvar o i s | getvar d o i | oref d o | dest o | cleanup | drop o
-  call k o st s t | rmcall k | sweep | sent k o s t | rmsent k
+  call k o st s t | rmcall k | sweep | sent k o s t | rmsent k | inp o s t | input
   err s t | efun f s t                                              (lpc mode only)
 
 Output, one line per operation:  `ok r:<ref of every visible cell, x = freed> st:<counters>` | `skip` |
@@ -57,6 +57,8 @@ def parseOp (line : String) : Option Op :=
   | ["rmsent", a] => do some (.rmsent (← n? a))
   | ["err", a, b] => do some (.err (← n? a) (← n? b))
   | ["efun", a, b, c] => do some (.efun (← n? a) (← n? b) (← n? c))
+  | ["inp", a, b, c] => do some (.inp (← n? a) (← n? b) (← n? c))
+  | ["input"] => some .input
   | ["clones", a] => do some (.clones (← n? a))
   | ["unclone", a] => do some (.unclone (← n? a))
   | _ => none
@@ -149,6 +151,7 @@ def applies : Op → Bool
   | .newobj _ => true
   | .sweep => true
   | .clones _ => true
+  | .input => true
   | _ => false
 
 def runLines (lpc : Bool) : Bool → St → PSt → List Op → List String → List String
